@@ -268,6 +268,65 @@ func c17Provider(c *Ctx) {
 				okSub = false
 			}
 		}
+		if !(okSel && okSub) {
+			// the channel may live in a field of a small stream object: what the loop selects on and what every (re)subscription
+			// delivers into must have the same origin (the same parameter, or the same field of the same struct type) and no
+			// subscription may be handed a freshly made channel
+			origin := func(v ssa.Value) map[string]bool {
+				out := map[string]bool{}
+				for x := range backSlice(v) {
+					switch y := x.(type) {
+					case *ssa.Parameter:
+						if _, isChan := y.Type().Underlying().(*types.Chan); isChan {
+							out["param:"+y.Type().String()] = true
+						}
+					case *ssa.FieldAddr:
+						if pt, ok := y.Type().Underlying().(*types.Pointer); ok {
+							if _, isChan := pt.Elem().Underlying().(*types.Chan); isChan {
+								out["field:"+y.X.Type().String()+"."+fieldName(y.X.Type(), y.Field)] = true
+							}
+						}
+					case *ssa.MakeChan:
+						out["fresh"] = true
+					}
+				}
+				return out
+			}
+			selO := map[string]bool{}
+			for _, g := range samePkgScope(f, 1) {
+				allInstrs(g, func(in ssa.Instruction) {
+					if sel, ok := in.(*ssa.Select); ok {
+						for _, st := range sel.States {
+							for k := range origin(st.Chan) {
+								selO[k] = true
+							}
+						}
+					}
+				})
+			}
+			subs := p.deepSites(f, nameMatcher("subscribeToUpdates"), 2)
+			same := len(subs) > 0 && len(selO) > 0 && !selO["fresh"]
+			for _, ds := range subs {
+				a := ds.Site.Args()
+				o := origin(a[len(a)-1])
+				shared := false
+				for k := range o {
+					if k != "fresh" && selO[k] {
+						shared = true
+					}
+				}
+				// a subscription inside the constructor of the stream object may receive the channel it was just made with
+				if o["fresh"] && inSameLoop(ds.Site.Block(), ds.Site.Block()) {
+					shared = false
+				}
+				if !shared {
+					same = false
+				}
+			}
+			if same {
+				okSel, okSub = true, true
+			}
+		}
 		c.check(okSel && okSub, "provider-fidelity", "receiveL1StateUpdates: one update channel", p.Pos(fnPos(f)), "the resubscription delivers into the channel the loop reads from", "after a subscription error the loop switches to a different channel: updates (incl. removals) still queued in the old channel are lost")
 	} else {
 		c.und("provider-fidelity", "receiveL1StateUpdates", "", "anchor not found")
